@@ -233,8 +233,6 @@ def main():
     anns = scal + rng.sample(rest, min(len(rest), 110 - (len(scal) - 12))) + siganns
   else:
     anns = anns + siganns
-  if os.environ.get("C02_DEV_FN"):
-    anns = fnother + siganns
   # 3. spec -> pytype
   jobs = []
   CHUNK = 96
